@@ -44,9 +44,12 @@ def _is_none_like(v):
 
 
 def _ns():
-    ns = fam_parsesig.NS()
-    ns.update({"set": set, "dict": dict, "frozenset": frozenset, "list": list, "tuple": tuple})
-    return ns
+    """globals whose builtins answer every unknown name with a stub (LOAD_NAME consults a non-dict builtins mapping
+    through __getitem__, in function headers and in class bodies alike)"""
+    b = fam_parsesig.NS()
+    b.update({"__build_class__": __build_class__, "object": object, "print": lambda *a, **k: None,
+              "set": set, "dict": dict, "frozenset": frozenset, "list": list, "tuple": tuple})
+    return {"__name__": "g", "__builtins__": b}
 
 
 def _exec(src):
@@ -55,7 +58,7 @@ def _exec(src):
     with warnings.catch_warnings():
         warnings.simplefilter("ignore")
         code = compile(src, "<generated>", "exec")
-    exec(code, {"__builtins__": {"__build_class__": __build_class__, "__name__": "g", "object": object}}, ns)
+    exec(code, ns)
     return ns
 
 
@@ -65,9 +68,11 @@ def _same_default(v, s):
         return False, "default left in the IR as a raw ast node"
     if s is None:
         return (isinstance(v, str) and v == NONESTR), "signature default None reported as %r" % (v,)
-    if isinstance(v, str) and not isinstance(s, str) and len(v) > 6 and v.startswith("```") and v.endswith("```"):
+    if isinstance(v, str) and isinstance(s, str) and v == s:
+        return True, ""
+    if isinstance(v, str) and len(v) > 6 and v.startswith("```") and v.endswith("```"):
         try:
-            w = eval(v[3:-3], {"__builtins__": {}}, _ns())
+            w = eval(v[3:-3], _ns())
         except Exception as e:  # noqa
             return False, "quoted default %r does not evaluate (%s)" % (v, type(e).__name__)
         return (type(w) is type(s) and w == s), "quoted default %r evaluates to %r, signature has %r" % (v, w, s)
@@ -176,8 +181,10 @@ def impl_holds(case):
         return False, "parse.class_(merge_inner_function='__init__') raises %s" % type(e).__name__
     if init is None:
         return (list(ir["params"]) == list(base["params"])), "class without __init__ changed by the merge"
-    f = cls.__dict__["__init__"]
-    f = f.__func__ if isinstance(f, (classmethod, staticmethod)) else f
+    try:   # the definition that ast.walk finds, executed on its own
+        f = next(v for v in _exec(ast.unparse(init)).values() if inspect.isfunction(v))
+    except Exception as e:  # noqa
+        return None, "definition does not execute: %s" % type(e).__name__
     ps = list(inspect.signature(f).parameters.values())
     if init.args.args and ps and ps[0].name == init.args.args[0].arg and ps[0].name in ("self", "cls"):
         ps = ps[1:]
